@@ -49,6 +49,8 @@ def programs(tier):
     for caller in ("h0", "h1"):
         for op in (("unschedule", "w0"), ("unschedule_all",), ("stop",)):
             P.append((f"shared-reent-{op[0]}-by-{caller}", dict(b1, reentrant={(caller, 0): op})))
+    P.append(("unsched||sched-same-watch", dict(init=[S("h0", "w0")], scripts={"w0": ["x", "y"]},
+                                                threads=[[("unschedule", "w0")], [S("h1", "w0")]])))
     P.append(("shared-stop-twice", dict(b1, threads=[[("stop",)], [("stop",)]])))
     P.append(("shared-reent-stop-ext-stop", dict(b1, threads=[[("stop",)]], reentrant={("h0", 0): ("stop",)})))
     P.append(("shared-reent-stop-ext-stop-by-h1", dict(b1, threads=[[("stop",)]], reentrant={("h1", 0): ("stop",)})))
@@ -74,4 +76,4 @@ def setup(tier):
 
 def run(ctx):
     hs, ctx.instrumented = setup(ctx.tier)
-    obsfam.run_family(ctx, hs, deep_quick=("tiny-remove", "tiny-unschedule", "tiny-unschedule_all", "tiny-stop"))
+    obsfam.run_family(ctx, hs, deep_quick=("tiny-remove", "tiny-unschedule"))
